@@ -33,7 +33,11 @@ RULE = ("one session per unordered pair of the 33-geometry lattice catalogue (al
         "millisecond events 2^18..2^27 s along the time axis; non-trivial = the pair has a positive affinity")
 TRUSTED_BASE = ["checks/c06.py + vt/geom.py (build geometries, call compute_affinity / buffer_geometry / compute_bounds, "
                 "encode doubles as limbs and hex; division of observed bounds by the power-of-two time unit)"]
-ASSUMPTIONS = ["RectIoU (exact area IoU of polygons / multi-polygons bounded by axis-parallel rectangles, interior rings included) leans on "
+ASSUMPTIONS = ["bent / oblique lines against time-only geometries: the buffered time extent is bracketed between tmin - b .. tmax + b and the "
+               "same shortened by b/128 at either end (inscribed round caps, shortfall <= 0.48 %), for lines whose bends are at most 90 "
+               "degrees in buffer units and lie at least tb inside the extent; decided at 1 ms ticks (kind far, origin 0) and on the "
+               "coarse lattice",
+               "RectIoU (exact area IoU of polygons / multi-polygons bounded by axis-parallel rectangles, interior rings included) leans on "
                "the property's title (an intersection-over-union); the statement spells the area IoU out for two bounding boxes only",
                "the geometry objects of a session are constructed, derived by model_copy / attribute assignment from a used geometry "
                "elsewhere, or deep-copied (case field prov): the affinity is taken to be a function of the geometries as values",
